@@ -542,6 +542,28 @@ fn replay_faults(_args: &[String]) -> i32 {
     0
 }
 
+/// C14 probe: `bom` -- bytes that happen to start like a Unicode byte order mark are still bytes
+/// of the code page: every string of representable characters must survive encode then decode.
+fn replay_bom(_args: &[String]) -> i32 {
+    for (id, samples) in [
+        (1252, vec!["\u{ef}\u{bb}\u{bf}abc", "\u{ff}\u{fe}a", "\u{fe}\u{ff}xy", "plain"]),
+        (1251, vec!["\u{43f}\u{2550}\u{2510}", "\u{44f}\u{44e}ab"]),
+        (65001, vec!["\u{feff}abc", "abc"]),
+    ] {
+        let cp = msi::CodePage::from_id(id).expect("page");
+        for s in samples {
+            let enc = cp.encode(s);
+            let dec = cp.decode(&enc);
+            if dec != s {
+                println!("REPLAY family=bom page={id} string={s:?} bytes={enc:02x?} decode(encode(s))={dec:?} verdict=VIOLATED (the bytes were not decoded in the page: a byte order mark was sniffed)");
+                return 1;
+            }
+        }
+    }
+    println!("REPLAY family=bom verdict=ok");
+    0
+}
+
 fn main() {
     let args: Vec<String> = std::env::args().skip(1).collect();
     if args.is_empty() {
@@ -559,6 +581,7 @@ fn main() {
         "poolcap" => replay_poolcap(&args[1..]),
         "rowlimit" => replay_rowlimit(&args[1..]),
         "faults" => replay_faults(&args[1..]),
+        "bom" => replay_bom(&args[1..]),
         _ => 2,
     };
     std::process::exit(rc);
